@@ -49,11 +49,11 @@ Proof. exact select_port_spec. Qed.
 
 (* responder: with an open server connection the peer gets a pierce or the server gets CannotConnect -- also when the
    connect succeeded and the PeerPierceFirewall write failed *)
-Theorem C11_responder : forall c w,
-  (responder true c w = PierceSent \/ responder true c w = CannotConnectReported) /\
-  (forall so, responder so c w = PierceSent <-> (c = RcOk /\ w = RsOk)) /\
-  responder true RcOk RsFail = CannotConnectReported.
-Proof. intros c w. split; [apply responder_spec|split; [intros; apply responder_pierce_iff|apply responder_write_failure]]. Qed.
+Theorem C11_responder : forall existing c w,
+  (responder existing true c w = PierceSent \/ responder existing true c w = CannotConnectReported) /\
+  (forall so, responder existing so c w = PierceSent <-> (c = RcOk /\ w = RsOk)) /\
+  responder existing true RcOk RsFail = CannotConnectReported.
+Proof. intros ex c w. split; [apply responder_spec|split; [intros; apply responder_pierce_iff|apply responder_write_failure]]. Qed.
 
 (* C11 over C10: the connection object of the direct attempt, run through the C10 connection machine on the event
    history the request imposes on it ([direct_history], Compose.v), ends quiescent; it is in the registry iff the
